@@ -17,4 +17,6 @@ INVARIANT EnforcedOptionsOnly
 INVARIANT DerivedFromDefault
 INVARIANT UnenforcedOptionsAreHints
 INVARIANT NoneDefaultNeedsASchema
+INVARIANT ModifiersMerge
+INVARIANT NoModifiersNoChange
 CHECK_DEADLOCK FALSE
